@@ -8,6 +8,7 @@ package ksim
 import (
 	"encoding/binary"
 	"fmt"
+	"os"
 	"runtime/debug"
 	"sync"
 	"syscall"
@@ -95,6 +96,17 @@ type Shape struct {
 	ForceEvents int    // this many unsolicited events in front of EVERY datagram (no deviation budget spent)
 	Errno       int    // when non-zero: the verdict menu is {0, Errno}
 	ErrnoAlways bool   // with Errno: every request is answered with it (no choice)
+	WrapErrors  int    // how receive failures are reported: 0 bare syscall.Errno, 1 fmt.Errorf("%w"), 2 *os.SyscallError
+}
+
+func (s *Sim) wrapErr(e syscall.Errno) error {
+	switch s.Shape.WrapErrors {
+	case 1:
+		return fmt.Errorf("recvfrom failed: %w", e)
+	case 2:
+		return os.NewSyscallError("recvfrom", e)
+	}
+	return e
 }
 
 // Sim is the simulated kernel.
@@ -265,11 +277,11 @@ func (s *Sim) Receive(nonBlocking bool, p libaudit.NetlinkParser) ([]syscall.Net
 			}
 		}
 		s.Log = append(s.Log, "recv="+e.Error())
-		return nil, e
+		return nil, s.wrapErr(e)
 	}
 	if len(s.Q) == 0 {
 		s.Log = append(s.Log, "recv=EAGAIN(empty)")
-		return nil, syscall.EAGAIN
+		return nil, s.wrapErr(syscall.EAGAIN)
 	}
 	d := s.Q[0]
 	if !d.decided && !s.NoDeviations {
@@ -297,7 +309,7 @@ func (s *Sim) Receive(nonBlocking bool, p libaudit.NetlinkParser) ([]syscall.Net
 				}
 			}
 			s.Log = append(s.Log, "recv="+first.Error())
-			return nil, first
+			return nil, s.wrapErr(first)
 		}
 		note := func(dev int) {
 			s.Devs = append(s.Devs, dev)
